@@ -292,6 +292,9 @@ BIL_VECTOR = [
     "lambda u, v: Trace(u.grad @ v.grad.T) * kappa",
     "lambda u, v: Sym_Grad(u).ddot(C4).ddot(Sym_Grad(v))",
     "lambda u, v: (u.grad @ Am).ddot(v.grad - Transpose(v.grad) / c0)",
+    "lambda u, v: (Am @ u.grad).ddot(v.grad)",
+    "lambda u, v: (Am @ u.grad @ Am).ddot(kappa * v.grad.T)",
+    "lambda u, v: (bv @ u.grad).dot(v.grad @ bv)",
 ]
 
 
